@@ -9,9 +9,11 @@ simvars == <<vars, w>>
 SimNext ==
   IF Urgent /\ \E c \in Conns : CloseStartEnabled(c)
     THEN (\E c \in Conns : CloseStart(c)) /\ w' = 0
-    ELSE \/ \E c \in Conns, s \in 1..5 : (NewConn(c) \/ ConnBegin(c) \/ ConnAuth(c) \/ ConnReply(c) \/ ConnDone(c)) /\ w' = s
-         \/ \E c \in Conns, s \in 1..3 : (TickBegin(c) \/ TickEnd(c) \/ CloseXmit(c)) /\ w' = s
-         \/ \E c \in Conns, s \in 1..2 : (Subscribe(c) \/ Unsubscribe(c) \/ Push(c, "send") \/ Push(c, "pub")) /\ w' = s
+  ELSE IF Urgent /\ \E c \in Conns : rd[c] = "tm"
+    THEN (\E c \in Conns : ConnArm(c)) /\ w' = 0
+    ELSE \/ \E c \in Conns, s \in 1..5 : (NewConn(c) \/ ConnBegin(c) \/ ConnAuth(c) \/ ConnReg(c) \/ ConnReply(c) \/ ConnDone(c) \/ ConnArm(c)) /\ w' = s
+         \/ \E c \in Conns, s \in 1..3 : (TickBegin(c) \/ TickEnd(c) \/ TimerExpire(c) \/ CloseXmit(c)) /\ w' = s
+         \/ \E c \in Conns, s \in 1..2 : (Subscribe(c) \/ Unsubscribe(c) \/ AnyPush(c)) /\ w' = s
          \/ \E c \in Conns : DupConnect(c) /\ w' = 0
          \/ \E c \in Conns : (Disconnect(c) \/ TransportClose(c)) /\ w' = 0
          \/ ShutBegin /\ w' = 0
